@@ -368,7 +368,7 @@ func checkJoinPhase(c *core.Ctx) {
 				}
 				return true
 			})
-			c.Decide(nCalls >= 5 && badArg == "" && nSet >= 1 && setOutside == "", "PHASE", key+"/store flag", fn.Decl.Pos(), nCalls+nSet,
+			c.Decide(nCalls >= 2 && badArg == "" && nSet >= 1 && setOutside == "", "PHASE", key+"/store flag", fn.Decl.Pos(), nCalls+nSet,
 				"every flush passes `false` or the flag that only markOneStreamRemains raises",
 				fmt.Sprintf("a flush may skip storing records in their own tree only once the finished side's buffer is empty: %s %s (calls=%d, sets=%d)", badArg, setOutside, nCalls, nSet))
 			c.Decide(n >= 2 && n == guarded, "PHASE", key+"/drop own tree", fn.Decl.Pos(), n, "own records stop being stored only once the finished side's buffer is empty", fmt.Sprintf("markOneStreamRemains must only run under `if otherRecordBuffer.Empty()` (%d of %d calls are)", guarded, n))
